@@ -222,11 +222,10 @@ fn token_alphabet() -> Vec<Token<'static>> {
     let b24: &'static [u8] = Box::leak(vec![7u8; 24].into_boxed_slice());
     let s24: &'static str = Box::leak("y".repeat(24).into_boxed_str());
     v.extend([Token::Bytes(&[]), Token::Bytes(&[200, 1, 2]), Token::Bytes(b24), Token::String(""), Token::String("a"), Token::String(s24)]);
-    for n in [0u64, 23, 24, 1 << 32] {
+    // every head-width boundary of the length / tag argument, on both sides
+    for n in [0u64, 23, 24, 255, 256, 65535, 65536, 0x7fff_ffff, 0x8000_0000, 0xffff_ffff, 1 << 32, u64::MAX] {
         v.push(Token::Array(n));
         v.push(Token::Map(n));
-    }
-    for n in [0u64, 24, 65536, u64::MAX] {
         v.push(Token::Tag(Tag::new(n)));
     }
     for n in [0u8, 19, 32, 255] {
@@ -293,6 +292,26 @@ pub fn run(r: &Report) {
                     for x in (0u16..=255).map(|x| x as u8).filter(|x| *x < 24 || *x >= 32) {
                         if check_stream(r, sub, &[&Item::Simple(x)], &mut evals) {
                             ok += 1;
+                        }
+                    }
+                    // integers and tag numbers over the 64-bit boundary lattice, at every admissible width
+                    for n in lattice64() {
+                        for w in W::admissible(n) {
+                            for it in [Item::Uint(n, *w), Item::Nint(n, *w), Item::Tag(n, *w, Box::new(Item::uint(0)))] {
+                                if check_stream(r, sub, &[&it], &mut evals) {
+                                    ok += 1;
+                                }
+                            }
+                        }
+                    }
+                    // strings at the length boundaries
+                    for len in [23usize, 24, 255, 256, 65535, 65536] {
+                        let b = Item::bytes(&vec![7u8; len]);
+                        let t = Item::text(&"q".repeat(len));
+                        for it in [b, t] {
+                            if check_stream(r, sub, &[&it], &mut evals) {
+                                ok += 1;
+                            }
                         }
                     }
                 }
